@@ -2294,6 +2294,8 @@ Box<ITV>::remove_higher_space_dimensions(const dimension_type new_dimension) {
     return;
   }
 
+  // Detect emptiness before dropping the intervals that may witness it.
+  (void) is_empty();
   seq.resize(new_dimension);
   PPL_ASSERT(OK());
 }
